@@ -118,6 +118,20 @@ def texts(draw, enc, max_lines=6, nonempty=True):
 
         parts[idxs[min(i, len(idxs) - 1)]] = ch * k
 
+    # fixed-width multi-byte codecs: a character pair whose code units
+    # look like an encoded LF across the character boundary, placed before
+    # the first real line break
+    if enc in MULTIBYTE and draw(st.integers(0, 3)) == 0:
+        trap = draw(st.sampled_from(['ੁ\x00', 'ੁ　', '䄀ੁ',
+                                     '\u0d0a\u0000', '\u0a0d\u0a0a']))
+
+        if _encodable_in(trap, enc):
+            idxs = [j for j, p_ in enumerate(parts) if p_ not in TERMS]
+            parts[idxs[0]] = trap + parts[idxs[0]]
+
+            if draw(st.booleans()):
+                parts = [('\r\n' if p_ in TERMS else p_) for p_ in parts]
+
     text = ''.join(parts)
 
     # a text that itself starts with U+FEFF (not a codec BOM)
